@@ -1,0 +1,22 @@
+//go:build verif
+
+// Contracts for the verification machinery in /verif (govc). Comment-only file.
+
+package gobwas
+
+// The gobwas codec (client side of the agent): one websocket frame per JSON-RPC message in both directions.
+// Reading moves to the next frame exactly once and then reads exactly one message from the stream codec over it;
+// writing hands the message to the stream codec exactly once and then flushes, which ends the frame.
+
+//@ func (*wsCodec).ReadMessage
+//@ property C17
+//@ requires codec != nil
+//@ ensures [one-frame-per-message] err == nil ==> gwframes == old(gwframes) + 1
+//@ ensures [nothing-read-without-a-frame] gwframes == old(gwframes) ==> err != nil
+
+//@ func (*wsCodec).WriteMessage
+//@ property C17
+//@ requires codec != nil
+//@ ensures [each-message-ends-its-frame] err == nil ==> gwflushes == old(gwflushes) + 1
+//@ ensures [at-most-one-frame] gwflushes <= old(gwflushes) + 1
+//@ callreq Codec.WriteMessage [writes-the-message-itself] : arg0 == msg
